@@ -228,3 +228,14 @@ CASES += [
         (_SVP, "                psi1 = psi2    \n                \n            pr.data[indx,:] = psi2                        \n            indx += 1       \n",
                "                psi1 = psi2    \n                \n            pr.data[indx,:] = 1.0*psi2\n            indx += 1       \n", 3)]},
 ]
+
+_SV = "quantarhei/qm/hilbertspace/statevector.py"
+_KB = "        for ii in range(self.dim):\n            for jj in range(self.dim):\n                rho.data[ii,jj] = self.data[ii]*numpy.conj(self.data[jj])\n"
+CASES += [
+    {"name": "outer product with the conjugate on the ket (seeded change of round 7)", "kind": "mutant", "rule": "C02-R", "edits": [
+        (_SV, _KB, "        psi = self.data\n        rho.data[:,:] = numpy.outer(numpy.conj(psi), psi)\n", 1)]},
+    {"name": "element-wise product with the conjugate on the row amplitude", "kind": "mutant", "rule": "C02-R", "edits": [
+        (_SV, _KB, "        for ii in range(self.dim):\n            for jj in range(self.dim):\n                rho.data[ii,jj] = numpy.conj(self.data[ii])*self.data[jj]\n", 1)]},
+    {"name": "outer product with the conjugate on the bra", "kind": "twin", "edits": [
+        (_SV, _KB, "        psi = self.data\n        rho.data[:,:] = numpy.outer(psi, numpy.conj(psi))\n", 1)]},
+]
